@@ -221,13 +221,17 @@ def hdr1 (bks : List Key) (sigs : List Sig) : Header :=
   { height := 1, hash := [8], prev := [7], timestamp := 11, blockRoot := [], bookkeepers := bks, sigs := sigs,
     newCfg := some [5, 6, 7], lastCfg := 0 }
 
+def verdict : Except Err (List Key) → Option Err × List Key
+  | .ok l => (none, l)
+  | .error e => (some e, [])
+
 example : s1.mem.peersB = [0, 1, 2, 3, 4, 5, 6] ∧ threshold p1 (headerHeight s1.mem) 7 = 1 ∧
-    verifyHeader p1 s1 (hdr1 [3] [[3]]) s1.mem.peersB = .ok [5, 6, 7] ∧
-    verifyHeader p1 s1 (hdr1 [3] []) s1.mem.peersB = .error .fewsigs ∧
-    verifyHeader p1 s1 (hdr1 [] []) s1.mem.peersB = .error .fewkeys ∧
-    verifyHeader p1 s1 (hdr1 [3, 3] [[3], [3]]) s1.mem.peersB = .error .pubkey ∧
-    verifyHeader p1 s1 (hdr1 [9] [[9]]) s1.mem.peersB = .error .pubkey ∧
-    verifyHeader p1 s1 (hdr1 [3] [[4]]) s1.mem.peersB = .error .multisig := by decide
+    verdict (verifyHeader p1 s1 (hdr1 [3] [[3]]) s1.mem.peersB) = (none, [5, 6, 7]) ∧
+    verdict (verifyHeader p1 s1 (hdr1 [3] []) s1.mem.peersB) = (some .fewsigs, []) ∧
+    verdict (verifyHeader p1 s1 (hdr1 [] []) s1.mem.peersB) = (some .fewkeys, []) ∧
+    verdict (verifyHeader p1 s1 (hdr1 [3, 3] [[3], [3]]) s1.mem.peersB) = (some .pubkey, []) ∧
+    verdict (verifyHeader p1 s1 (hdr1 [9] [[9]]) s1.mem.peersB) = (some .pubkey, []) ∧
+    verdict (verifyHeader p1 s1 (hdr1 [3] [[4]]) s1.mem.peersB) = (some .multisig, []) := by decide
 
 end Example
 
